@@ -7,7 +7,8 @@ std::unique_ptr<NodeResult> StringConcatenationNode::evaluate(PSC::Context &ctx)
     auto leftRes = left.evaluate(ctx);
     auto rightRes = right.evaluate(ctx);
 
-    if (!leftRes->data->isPrimitive() || !rightRes->data->isPrimitive())
+    if (leftRes->type == PSC::DataType::NONE || rightRes->type == PSC::DataType::NONE
+        || !leftRes->data->isPrimitive() || !rightRes->data->isPrimitive())
         throw PSC::TypeOperationError(token, ctx, "'&'");
 
     auto leftStr = static_cast<const PSC::Primitive*>(leftRes->data.get())->toString();
